@@ -6,6 +6,7 @@ import json
 import os
 import sys
 sys.path.insert(0, os.path.dirname(os.path.abspath(__file__)))
+from _report import spread  # noqa: E402
 from vmref import RefVM, corpus  # noqa: E402
 import fickling.fickle as fk  # noqa: E402
 
@@ -54,6 +55,21 @@ for name, data in corpus():
     total_have = sum(have_calls.values())
     if total_have < total_want:
         missing.append(f"{total_want - total_have} call statement(s): VM calls {dict(want_calls)}, decompile has {dict(have_calls)}")
+    # the same callee: a call whose callee the VM obtained from a global must be a call statement of that name (OBJ / INST / REDUCE call the
+    # global itself; NEWOBJ / NEWOBJ_EX call its __new__, which the decompiled program writes as an attribute call and is counted above)
+    imps = [(m, a) for k, m, a in [e for e in vm.log if e[0] == "import"]]
+    newobj_ops = {"NEWOBJ", "NEWOBJ_EX"} & {o.info.name for o in p}
+    if not newobj_ops:
+        want_named = collections.Counter()
+        for e in vm.log:
+            if e[0] == "call":
+                cands = frozenset(a for (m, a) in imps if f"{m}.{a}" == e[1])
+                if cands:
+                    want_named[cands] += 1
+        for cands, c in want_named.items():
+            if sum(have_calls[a] for a in cands) < c:
+                missing.append(f"{c - sum(have_calls[a] for a in cands)} call(s) of {sorted(cands)[0]}: the VM calls it {c} time(s), the decompiled program has "
+                               f"{dict(have_calls)}")
     if have_builds < want_builds:
         missing.append(f"{want_builds - have_builds} __setstate__ statement(s)")
     if have_pers < want_pers:
@@ -65,4 +81,4 @@ for name, data in corpus():
             src = f"<unparse failed: {e}>"
         fails.append({"program": name, "bytes": data.hex(), "missing": missing, "decompiled": src[:400],
                       "opcodes": sorted({o.info.name for o in p})})
-print(json.dumps({"failures": fails[:25], "n_failures": len(fails), "programs": nprog, "refused": refused}))
+print(json.dumps({"failures": spread(fails, lambda f: (tuple(sorted(f["opcodes"]))[-3:], f["missing"][0][:20]), per=3), "n_failures": len(fails), "programs": nprog, "refused": refused}))
